@@ -129,10 +129,11 @@ def isPySpace (c : Char) : Bool := Genshi.Gen.Subst.pySpace.contains c.toNat
 /-- `str.strip()` -/
 def pyStrip (s : List Char) : List Char := stripBy isPySpace s
 
-/-- `v is not None and six.text_type(v).strip() or None` -/
+/-- `None if v is None else six.text_type(v).strip()`: only `None` removes an attribute
+    (after fix ce82919; before it a value that was empty after trimming removed it as well) -/
 def stripValue : Scalar → Option (List Char)
   | .none => none
-  | x => let s := pyStrip (pyStr x); if s.isEmpty then none else some s
+  | x => some (pyStrip (pyStr x))
 
 /-! `Attrs.__or__` of core.py, as in `Genshi.Escape.Attrs.or`, generic in the value type
     (the directive runs before interpolated values are evaluated, so values are `AttrSpec`s) -/
@@ -180,7 +181,7 @@ def gOr (self : List (Name × α)) (attrs : List (Name × Option α)) : List (Na
   gKept self attrs ++ gNew self attrs
 end Or
 
-/-- `AttrsDirective.__call__`: `attrib |= [(QName(n), str(v).strip() or None) for n, v in attrs]`;
+/-- `AttrsDirective.__call__`: `attrib |= [(QName(n), None if v is None else str(v).strip()) for n, v in attrs]`;
     a falsy value of the expression leaves the attributes alone -/
 def applyPyAttrs (env : Env) (attrib : List (Name × AttrSpec)) (items : List (Name × Atom)) :
     List (Name × AttrSpec) :=
